@@ -62,8 +62,8 @@ PROPS = {
         n_quick=150, n_thorough=1500,
         gates=["kinds.all43", "op.get", "op.get_mut", "op.insert", "op.remove", "op.replace", "op.swap", "op.walk",
                "op.kids", "op.replace_child", "err.CardNotFound", "err.FunctionNotFound", "err.InvalidIndex",
-               "err.ChildErr", "swap.InvalidSwap", "swap.FetchError", "known.swap_same", "known.call_insert",
-               "known.get_depth", "random"],
+               "err.ChildErr", "swap.InvalidSwap", "swap.FetchError", "edge.swap_same", "edge.call_insert_oor",
+               "edge.get_nested_miss", "random"],
         rule="bounded-exhaustive: each of the 43 card kinds (list kinds with 0-3 children) x every child index "
              "0..arity+1 x {kids, get, get_mut, replace+replace back, insert, remove, swap twice with a card of the "
              "same and of another function, swap with the own ancestor in both orders, replace_child, walk, swap "
@@ -71,8 +71,8 @@ PROPS = {
              "function out of range, card out of range); plus n random modules (depth <= 4, thorough <= 6) with "
              "random histories of 8-16 calls on valid, perturbed and invalid indices. After every call the result "
              "(incl. error variant and depth) and the whole module are compared with the kind-by-kind model and "
-             "with the rose-tree specification. Calls that fall into a known-finding class are issued as cases of "
-             "their own. non-trivial = history uses >= 3 operation kinds or contains a failing call; distinct = "
+             "with the rose-tree specification. Calls of the three repaired classes (swap(i,i), insert past the end of a call, get_card "
+             "below a miss) are issued inside the histories and also as cases of their own. non-trivial = history uses >= 3 operation kinds or contains a failing call; distinct = "
              "distinct case term",
         trusted_base=COMMON_TB + [
             "modelled, not verified: card.rs num_children/iter_children/get_child/get_child_mut/remove_child/"
